@@ -24,7 +24,22 @@
               WHOLE QUERIES that are one location path without predicates over these axes and
               parent / ancestor / ancestor-or-self, with any node tests, [/] and [//], relative or
               absolute: [query] = [spec_query] ([C05_rung1_paths_partial]).
-    Not proved: sibling / following / preceding axes, predicates and the
+      rung 2  (round 2) ALL axes except [namespace] -- following-sibling, preceding-sibling,
+              following, preceding included -- agree as LISTS: the model's axis result is a
+              duplicate-free list of nodes of the tree, the specification's axis the increasing list
+              of the same rows, so that the key sort of a step yields the list the specification
+              numbers the predicates along ([C05_rung2_axes_partial], [C05_rung2_sort_partial]);
+              the string-value of every node of the tree, the document node included
+              ([C05_rung2_string_value_partial]).
+    Hypotheses added in round 2, all decidable and evaluated on every generated document by the
+    extracted checkers: [SpecShape] now also says that the rows read by the specification's walk
+    ([all_nodes]) are in increasing order (the table is the pre-order walk), that a listed
+    attribute is an attribute whose parent observation is the listing element, that a listed child
+    has the listing node as parent observation and a kind with siblings, that row 0 is a document
+    node whose children are one element, comments, processing instructions and the document type;
+    [NamesOk] now also says that a processing instruction reports (target, no prefix, no URI) and
+    that documents, text and comments report no name.
+    Not proved: predicates and the
     induction over all expressions, comparisons, the function library (C09).  For everything that is not proved the
     equality is TESTED on every run: checks/C05.py evaluates implementation, model and
     specification on the same generated cases (and an exhaustive axis x test x predicate family).
@@ -38,8 +53,9 @@
 From Coq Require Import List NArith Bool Sorting.Sorted.
 From XmlRs Require Import Base.CPred Model.XPathAst Model.XDoc Model.XDocCheck Model.XPathEval.
 From XmlRs Require Import Spec.XPath10.
-From XmlRs Require Import Proofs.XPathNav Proofs.XPathSort Proofs.XPathCanon Proofs.XPathRefine
-  Proofs.XPathRefinePaths Proofs.XPathExamples Proofs.XPathWitness.
+From XmlRs Require Import Proofs.XPathNav Proofs.XPathSort Proofs.XPathAstPred Proofs.XPathCanon Proofs.XPathRefine
+  Proofs.XPathRefinePaths Proofs.XPathRefineTree Proofs.XPathRefineAxes Proofs.XPathRefineVal
+  Proofs.XPathExamples Proofs.XPathWitness.
 Import ListNotations.
 
 (** what the model's value denotes in the specification *)
@@ -116,6 +132,35 @@ Theorem C05_rung1_paths_partial :
     query doc (path_query p) c = (Ok (XNodes lm), c) /\
     spec_query doc ns pos size (path_query p) = Some (SNodes (map Row lm)).
 Proof. exact path_query_agrees. Qed.
+
+(** round 2, rung 2: ALL axes except [namespace], at the level of lists.  For a node [i] of the tree
+    ([T doc i]: row [i] is reached by the specification's walk of the document) the model's axis
+    returns a duplicate-free list of tree nodes, the specification's axis is the increasing list of
+    rows with the same elements: following-sibling, preceding-sibling, following, preceding
+    included.  Sorting the model's list by order key therefore gives the specification's list
+    ([C05_rung2_sort_partial]), which is what a step does before it numbers the nodes for its
+    predicates. *)
+Theorem C05_rung2_axes_partial :
+  forall (doc : xdoc), DocInv doc -> SpecShape doc -> ParentsOk doc ->
+  forall (a : axis_spec) (i : node), T doc i -> not_ns_axis a = true ->
+  exists l l' : list node,
+    axis_nodes doc a i = Ok l /\ NoDup l /\ Forall (T doc) l /\
+    s_axis doc (axis_of a) (Row i) = map Row l' /\ StronglySorted N.lt l' /\
+    (forall x, In x l' <-> In x l).
+Proof. intros doc Hinv Hs Hp a i. exact (axis_agrees doc Hinv Hs Hp a i). Qed.
+
+Theorem C05_rung2_sort_partial :
+  forall (doc : xdoc), DocInv doc -> SpecShape doc ->
+  forall l l' : list node, NoDup l -> Forall (T doc) l -> StronglySorted N.lt l' ->
+    (forall x, In x l' <-> In x l) -> sort_by_key doc l = l'.
+Proof. intros doc Hinv Hs. exact (sort_is_spec_list doc Hinv Hs). Qed.
+
+(** the string-value of every node of the tree -- the document node, elements, attributes, text,
+    comments, processing instructions -- is the one of section 5 *)
+Theorem C05_rung2_string_value_partial :
+  forall (doc : xdoc) (i : node), DocInv doc -> SpecShape doc -> T doc i ->
+    string_value doc i = Ok (s_string_value doc (Row i)).
+Proof. intros doc i Hinv Hs. exact (sv_agrees doc Hinv Hs i). Qed.
 
 Theorem C05_names_ok_decidable : forall doc : xdoc, names_ok_b doc = true -> NamesOk doc.
 Proof. exact names_ok_b_sound. Qed.
@@ -198,3 +243,6 @@ Print Assumptions C05_rung1_axis_descendant_or_self_partial.
 Print Assumptions C05_rung1_string_value_element_partial.
 Print Assumptions C05_rung1_node_test_partial.
 Print Assumptions C05_rung1_paths_partial.
+Print Assumptions C05_rung2_axes_partial.
+Print Assumptions C05_rung2_sort_partial.
+Print Assumptions C05_rung2_string_value_partial.
